@@ -1138,7 +1138,8 @@ impl Formatter {
             Pattern::Binding(name) => self.writer.write(name),
             Pattern::Literal(lit) => self.format_literal(lit),
             Pattern::Constructor(name, patterns) => {
-                self.writer.write(name);
+                // The parser stores `Type.Variant` as `Type::Variant`; the source spelling uses a dot
+                self.writer.write(&name.replace("::", "."));
                 if !patterns.is_empty() {
                     self.writer.write("(");
                     for (i, p) in patterns.iter().enumerate() {
